@@ -136,7 +136,15 @@ def build_program(rng, nvals):
             base = interesting_value(rng) & ~3
             e = '%%position(%s, %s)' % (lab, spell(rng, base))
             val = ('label', lab, base)
-        kind = rng.choice(['lui_addi', 'lui_lw', 'lui_sw', 'auipc_addi', 'auipc_jalr', 'lui_addi'])
+        kind = rng.choice(['lui_addi', 'lui_lw', 'lui_sw', 'auipc_addi', 'auipc_jalr', 'lui_addi', 'li', 'li'])
+        rd = rng.choice([5, 6, 7, 8, 9, 10, 15, 28])
+        if kind == 'li':
+            # `li rd, expr` is documented as lui %hi + addi %lo of the same expression: one line, executed as a whole
+            first = len(body)
+            body.append(('li x%d, %s' % (rd, e), None))
+            body.append(('addi x0, x0, 0', None))
+            checks.append((kind, first, rd, val, e))
+            continue
         rd = rng.choice([5, 6, 7, 8, 9, 10, 15, 28])
         if kind == 'auipc_jalr' and val[0] == 'lit' and (val[1] & 1):
             kind = 'auipc_addi'
@@ -161,6 +169,15 @@ def build_program(rng, nvals):
         checks.append((kind, first, rd, val, e))
     # assemble the line list: body, then gap, LA, gap, LB
     lines = [b[0] for b in body]
+    if rng.random() < 0.4:
+        # put LA so that its *pessimistic* offset (every li / pair counted 8 bytes) is just above a 2 KiB / 4 KiB boundary while
+        # its final offset (after short li's shrink and, with -c, instructions compress) falls just below it
+        pess = sum(8 if (l.startswith('li ') or l.startswith('lui') or l.startswith('auipc')) else (4 if not ('=' in l) else 0) for l in lines)
+        target = rng.choice([0x800, 0x1000, 0x1800, 0x2000]) + rng.choice([0, 0, 2, 4, 8, 12])
+        while target - pess < 4:
+            target += 0x800
+        gap1 = target - pess
+        gap1 -= gap1 % 2
     # `first` indices refer to body positions == line indices
     lines.append('string ' + 'A' * gap1)
     lines.append('align 4')
@@ -199,6 +216,8 @@ def run_program(asm, acc, lines, checks, compress, seedinfo):
     for (kind, first, rd, val, e) in checks:
         st0 = lay.chunks[first][0]
         end = lay.chunks[first + 1][0] + len(lay.chunks[first + 1][1])
+        if kind == 'li':
+            end = st0 + len(lay.chunks[first][1])
         if val[0] == 'lit':
             v = val[1] & M32
         else:
@@ -210,6 +229,8 @@ def run_program(asm, acc, lines, checks, compress, seedinfo):
             if m.step() is None:
                 break
             steps += 1
+        if kind == 'li' and steps == 1 and m.trap is None:
+            steps = 2          # a value that fits 12 bits is a single instruction
         acc['ntkeys'].add(core.ckey(kind, v, e, compress))
         acc['ctr']['pair:' + kind] += 1
         what = None
@@ -217,6 +238,8 @@ def run_program(asm, acc, lines, checks, compress, seedinfo):
             what = 'trap: ' + m.trap
         elif steps != 2:
             what = 'pair did not execute as two instructions'
+        elif kind == 'li' and m.x[rd] != v:
+            what = 'x%d = %#x' % (rd, m.x[rd])
         elif kind == 'lui_addi' and m.x[rd] != v:
             what = 'x%d = %#x' % (rd, m.x[rd])
         elif kind == 'auipc_addi' and m.x[rd] != (st0 + v) & M32:
@@ -284,7 +307,7 @@ def gates(acc, tier):
     g = []
     if acc['ctr']['fn_values'] == 0 and sum(acc['ctr']['pair:' + k] for k in ('lui_addi', 'lui_lw', 'lui_sw', 'auipc_addi', 'auipc_jalr')) < 2000:
         g.append('relocate_hi/relocate_lo are not reachable and too few %hi/%lo pairs were executed at program level')
-    for k in ('lui_addi', 'lui_lw', 'lui_sw', 'auipc_addi', 'auipc_jalr'):
+    for k in ('lui_addi', 'lui_lw', 'lui_sw', 'auipc_addi', 'auipc_jalr', 'li'):
         if acc['ctr']['pair:' + k] == 0:
             g.append('no executed %s pair' % k)
     if acc['ctr']['program_refused'] > 0.2 * max(1, acc['ctr']['programs']):
